@@ -80,7 +80,32 @@ func C09Scenarios(tier string) []*h.Scenario {
 		n := hh.W.AddNode(a, sim.NodeOpt{Age: time.Duration(23) * Q})
 		hh.W.AddPod(podOn(g, n.Name, 900))
 	}
-	return []*h.Scenario{s, &s2}
+	// scale_on_starve: the free room of a cordoned node must not count as available capacity
+	g3 := g
+	g3.Opts.ScaleOnStarve = true
+	s3 := *s
+	s3.Name = "c09.starve"
+	s3.Groups = []h.GroupSpec{g3}
+	s3.Init = func(hh *h.Hist) {
+		a := InitASGs(hh)[0]
+		for i := 0; i < 2; i++ {
+			n := hh.W.AddNode(a, sim.NodeOpt{Age: time.Duration(20+i) * Q})
+			hh.W.AddPod(podOn(g3, n.Name, 300))
+		}
+		hh.W.AddNode(a, sim.NodeOpt{Age: 30 * Q, Cordoned: true})
+		// 67.5 % utilisation (idle band); the pending pod (750m) fits on no schedulable node (700m free
+		// each) but would fit on the cordoned, empty one: starvation is the only scale-up trigger
+		hh.W.AddPod(podOn(g3, "", 750))
+	}
+	s3.Events = func(hh *h.Hist, slot int) []h.Event {
+		var ev []h.Event
+		for _, n := range groupNodes(hh, g3, 4) {
+			ev = append(ev, evCordon(n.Name, !n.Spec.Unschedulable), evPodStart(g3, n.Name, 300), evPodFinish(g3, n.Name))
+		}
+		ev = append(ev, h.Event{Label: "pending-pod(700m)", Apply: func(hh *h.Hist) { hh.W.AddPod(podOn(g3, "", 700)) }}, evClearPending(g3), evRestart())
+		return ev
+	}
+	return []*h.Scenario{s, &s2, &s3}
 }
 
 func init() {
